@@ -47,6 +47,16 @@ for _p in list(PACKAGES):
         importlib.import_module("plasTeX.Packages." + _p)
     except Exception:
         PACKAGES.remove(_p)
+# ... and every core module (several are imported lazily by plasTeX, e.g. plasTeX.Context)
+import pkgutil  # noqa
+for _m in pkgutil.walk_packages(plasTeX.__path__, "plasTeX."):
+    if _m.name.startswith(("plasTeX.Packages.", "plasTeX.Imagers.")) or ".Renderers." in _m.name and \
+            not _m.name.startswith(("plasTeX.Renderers.HTML5", "plasTeX.Renderers.PageTemplate")):
+        continue
+    try:
+        importlib.import_module(_m.name)
+    except Exception:
+        pass
 
 # --------------------------------------------------------------------------
 # monitor
@@ -87,8 +97,25 @@ def _classes():
     return seen
 
 
+def _module_globals():
+    out = {}
+    for modname, mod in sorted(sys.modules.items()):
+        if mod is None or not (modname == "plasTeX" or modname.startswith("plasTeX.")):
+            continue
+        if modname == "plasTeX.Logging":      # logger registry: not parsing state
+            continue
+        d = {}
+        for name, obj in vars(mod).items():
+            if name.startswith("__"):
+                continue
+            if isinstance(obj, (list, dict, set, frozenset, tuple, str, int, float, bool, type(None))):
+                d[name] = _simple(obj)
+        out["<module %s>" % modname] = d
+    return out
+
+
 def snapshot():
-    snap = {}
+    snap = _module_globals()
     for key, cls in _classes().items():
         d = {}
         members = []
@@ -130,17 +157,25 @@ def canon(x):
     return _ADDR.sub("0xADDR", x)
 
 
-def process(src, render=False):
-    if render:
+def process(doc, render=False):
+    if isinstance(doc, dict):
+        src, overrides = doc["src"], doc.get("cfg") or {}
+    else:
+        src, overrides = doc, {}
+    if render or overrides:
         from plasTeX import TeXDocument
         from plasTeX.Config import defaultConfig
-        import plasTeX.Renderers.HTML5.Config as H5
         cfg = defaultConfig()
-        H5.addConfig(cfg)
-        cfg["images"]["imager"] = "none"
-        cfg["images"]["vector-imager"] = "none"
-        cfg["general"]["copy-theme-extras"] = False
-        cfg["files"]["split-level"] = 1
+        if render:
+            import plasTeX.Renderers.HTML5.Config as H5
+            H5.addConfig(cfg)
+            cfg["images"]["imager"] = "none"
+            cfg["images"]["vector-imager"] = "none"
+            cfg["general"]["copy-theme-extras"] = False
+            cfg["files"]["split-level"] = 1
+        for sect, opts in overrides.items():
+            for k, v in opts.items():
+                cfg[sect][k] = v
         tex = TeX(TeXDocument(config=cfg))
     else:
         tex = TeX()
@@ -266,6 +301,10 @@ BODY = [
     F("\\begin{thm} statement mAH \\end{thm}\n", pre="\\newtheorem{thm}{Theorem}\n"),
     F("\\begin{lem} lemma mAI \\end{lem}\n", pre="\\newtheorem{thm}{Theorem}\n\\newtheorem{lem}[thm]{Lemma}\n"),
     F("\\label{lab:A} see \\ref{lab:A} and \\ref{lab:missing} mAJ\n\n", observe=["labels"]),
+    F("\\section{Labelled mBE}\\label{only:1} text\n\n", touch=["labels"]),
+    F("\\begin{equation} z \\label{only:2} \\end{equation}\n", touch=["labels"], observe=["math"]),
+    F("forward \\ref{only:1} and \\pageref{only:2} and \\cite{only:3} mBF\n\n", observe=["labels", "bib"]),
+    F("\\begin{thebibliography}{9}\\bibitem{only:3} Other mBG\\end{thebibliography}\n", touch=["labels"]),
     F("word\\index{alpha} more\\index{beta!gamma} mAK\n\n", touch=["index"], pkgs=["makeidx"]),
     F("\\printindex\n", touch=["index"], observe=["index"], pkgs=["makeidx"], pre="\\makeindex\n"),
     F("cite \\cite{k1} mAL\n\\begin{thebibliography}{9}\\bibitem{k1} Author mAM\\end{thebibliography}\n",
@@ -287,12 +326,44 @@ BODY = [
     F("\\setcounter{equation}{5}\\begin{equation}u\\end{equation}\n", observe=["math"], touch=["counters"]),
     F("\\renewcommand{\\thesection}{\\Roman{section}}\n", touch=["counters"]),
     F("\\begin{quote} quoted mAX \\end{quote}\\begin{center} centred mAY \\end{center}\n"),
-    F("``quoted'' text --- dash -- range mAZ\n\n"),
+    F("``quoted'' text --- dash -- range mAZ\n\n", observe=["text"]),
     F("\\begin{eqnarray} a &=& b \\\\ c &=& d \\nonumber \\end{eqnarray}\n", observe=["math"]),
     F("\\bgroup\\bfseries bold mBA\\egroup\\begingroup\\itshape it mBB\\endgroup\n\n"),
     F("\\let\\oldpar\\par \\let\\zz=\\textbf \\zz{let mBC}\n\n"),
-    F("\\begin{longtable}{ll} a & b \\\\ c & d mBD \\\\ \\end{longtable}\n", observe=["table"], pkgs=["longtable"]),
+    F("\\begin{longtable}{ll} a & b \\\\ c & d mBD \\\\ \\end{longtable}\n", observe=["table"], pkgs=["longtable"]),    # starred / unstarred relatives and base classes used before their subclasses (per-class caches)
+    F("\\begin{eqnarray*} a &=& b \\\\ c &=& d \\end{eqnarray*}\n", observe=["math"], touch=["relatives"]),
+    F("\\begin{eqnarray} p &=& q \\\\ r &=& s \\\\ t &=& u \\end{eqnarray}\n", observe=["math", "relatives"]),
+    F("\\begin{align*} a &= b \\\\ c &= d \\end{align*}\n", observe=["math"], touch=["relatives"], pkgs=["amsmath"]),
+    F("\\begin{gather} a = b \\\\ c = d \\end{gather}\\begin{multline} x \\\\ y \\end{multline}\n",
+      observe=["math", "relatives"], pkgs=["amsmath"]),
+    F("\\begin{equation*} e^* \\end{equation*}\\begin{displaymath} d \\end{displaymath}\n", observe=["math"],
+      touch=["relatives"], pkgs=["amsmath"]),
+    F("\\begin{figure*}\\caption{wide mBH}\\end{figure*}\\begin{table*}\\caption{widet mBI}\\end{table*}\n",
+      touch=["relatives"]),
+    F("\\begin{tabular*}{10cm}{lr} a & b mBJ\\end{tabular*}\\begin{array}{c}q\\end{array}\n", observe=["table"],
+      touch=["relatives"]),
+    F("\\section*{Starred mBK}\\subsection*{Starred sub mBL}\n", touch=["relatives"]),
+    F("\\begin{enumerate}\\item[x] lab mBM \\item plain mBN\\end{enumerate}\n", observe=["list", "relatives"]),
+    # TeX-level conditionals and expansion primitives
+    F("\\def\\first{abc}\\def\\second{abc}\\ifx\\first\\second same mBO\\else diff mBP\\fi\n\n", touch=["ifx"]),
+    F("\\def\\nothing{}\\ifx\\nothing\\empty empty mBQ\\else full mBR\\fi \\ifx ab eq\\else ne mBS\\fi\n\n",
+      touch=["ifx"]),
+    F("\\ifnum 3<5 lt mBT\\else ge\\fi \\ifdim 1pt>2pt gt\\else le mBU\\fi \\ifodd 3 odd mBV\\fi\n\n", touch=["ifx"]),
+    F("\\ifcase 2 zero\\or one\\or two mBW\\else other\\fi \\ifdefined\\undefinedmacro def\\else undef mBX\\fi\n\n",
+      touch=["ifx"]),
+    F("\\def\\xa{A}\\expandafter\\def\\csname made\\xa\\endcsname{built mBY}\\csname madeA\\endcsname\n\n", touch=["ifx"]),
+    F("\\newcount\\rc \\rc=4\\relax \\advance\\rc by 3 \\multiply\\rc by 2 \\the\\rc{} mBZ \\number\\rc\n\n",
+      touch=["register"], observe=["register"]),
+    F("\\parindent=1.5\\parindent \\the\\parindent{} \\hsize=0.5\\textwidth \\the\\hsize{} mCA\n\n",
+      touch=["register"], observe=["register"]),
+    F("\\chardef\\cd=65 \\mathchardef\\mcd=66 \\number\\cd{} \\char\\cd{} mCB\n\n", touch=["ifx"]),
+    F("\\romannumeral 14 \\uppercase{up mcc} \\lowercase{LOW MCD} \\string\\foo{} mCE\n\n", touch=["ifx"]),
+    F("\\hspace{1cm}\\vspace{2pt}\\hskip 3pt plus 1fil \\kern 2pt\\rule{1pt}{2pt} mCF\n\n", touch=["register"]),
 ]
+# packages loaded without being used: their ProcessOptions may change shared state
+for _p in PACKAGES:
+    if _p not in ("article", "book", "report"):
+        BODY.append(F("loaded mCG\n\n", touch=["package:" + _p], pkgs=[_p]))
 SECTIONS = {
     "article": ["\\section{Sec mS1}\n", "\\subsection{Sub mS2}\n", "\\section*{Star mS3}\n",
                 "\\subsubsection{SubSub mS4}\n", "\\paragraph{Par mS5}\n"],
@@ -317,7 +388,8 @@ ENDINGS = [
 ]
 OBSERVED_BY = {"register": "register", "math-open": "math", "list-open": "list", "index": "index",
                "class:article": "index", "class:book": "index", "class:report": "index",
-               "ifthen": "math", "openout": "register", "counters": "labels", "appendix": "labels"}
+               "ifthen": "math", "openout": "register", "counters": "labels", "appendix": "labels",
+               "labels": "labels", "config": "text", "relatives": "relatives", "ifx": "register"}
 
 
 @st.composite
@@ -352,6 +424,18 @@ def document(draw, well_formed=False):
     return {"src": src, "touch": touch, "observe": observe, "ending": end[0]}
 
 
+CONFIGS = [
+    {}, {}, {}, {},
+    {"document": {"disable-charsub": ["''", "``"]}},
+    {"document": {"disable-charsub": ["---", "--", "'", "`"]}},
+    {"document": {"sec-num-depth": 0}},
+    {"document": {"sec-num-depth": 5, "toc-depth": 1}},
+    {"document": {"base-url": "http://example.org/base/"}},
+    {"general": {"load-tex-packages": True}},
+    {"document": {"title": "Configured mCT"}},
+]
+
+
 @st.composite
 def sequence(draw):
     B = draw(document(well_formed=draw(st.integers(0, 4)) > 0))
@@ -361,8 +445,15 @@ def sequence(draw):
         A = [B] * max(1, min(k, 2))             # idempotence: B;B
     else:
         A = [draw(document()) for _ in range(k)]
-    return {"A": [a["src"] for a in A], "B": B["src"],
-            "meta": {"touch": sorted(set(t for a in A for t in a["touch"])), "observe": B["observe"],
+    cfgs = [draw(st.sampled_from(CONFIGS)) for _ in A]
+    if mode == 0:
+        cfgs = [{} for _ in A]
+    bcfg = draw(st.sampled_from(CONFIGS[:6]))
+    if mode == 0:
+        bcfg = {}
+    return {"A": [{"src": a["src"], "cfg": c} for a, c in zip(A, cfgs)], "B": {"src": B["src"], "cfg": bcfg},
+            "meta": {"touch": sorted(set([t for a in A for t in a["touch"]] + (["config"] if any(cfgs) else []))),
+                     "observe": B["observe"],
                      "endings": [a["ending"] for a in A], "b_ending": B["ending"], "idempotence": mode == 0}}
 
 
@@ -418,7 +509,7 @@ def make_check(render):
                         {"leaks": [leaks[a] for a in new_leaks], "B_result": differs or "identical"}, feats)
         if differs:
             # a difference is attributed to a listed leak only when B can observe that leak
-            attributable = [a for a in known_leaks if _observes(B, a)]
+            attributable = [a for a in known_leaks if _observes(B["src"] if isinstance(B, dict) else B, a)]
             if attributable:
                 return fail("leak:" + attributable[0], {"leaks": [leaks[a] for a in attributable],
                                                         "B_result": differs}, feats)
@@ -462,6 +553,33 @@ def _files_diff(a, b):
     return None
 
 
+def _single(fr, cls):
+    pk = "".join("\\usepackage{%s}\n" % q for q in fr["pkgs"] if q in PACKAGES)
+    head = {"article": "", "book": "\\chapter{Chap mS6}\n", "report": "\\chapter{Chap mS6}\n"}[cls]
+    return ("\\documentclass{%s}\n%s%s\\begin{document}\n%s%s\\end{document}\n" %
+            (cls, pk, fr["pre"], head, fr["src"]))
+
+
+def pairs(tier):
+    """Every ordered pair (A uses fragment i) ; (B uses fragment j): quick = touching x observing
+    fragments, thorough = all x all; classes alternate deterministically."""
+    if tier == "quick":
+        ai = [i for i, f in enumerate(BODY) if f["touch"]]
+        bj = [j for j, f in enumerate(BODY) if f["observe"]]
+    else:
+        ai = list(range(len(BODY)))
+        bj = list(range(len(BODY)))
+    classes = ["article", "book", "report"]
+
+    def fn(n):
+        i, j = ai[n // len(bj)], bj[n % len(bj)]
+        ca, cb = classes[(i + j) % 3], classes[(i + 2 * j + 1) % 3]
+        return {"A": [{"src": _single(BODY[i], ca), "cfg": {}}], "B": {"src": _single(BODY[j], cb), "cfg": {}},
+                "meta": {"touch": BODY[i]["touch"] + ["class:" + ca], "observe": BODY[j]["observe"],
+                         "endings": ["closed"], "b_ending": "closed", "idempotence": False, "pair": [i, j]}}
+    return len(ai) * len(bj), fn
+
+
 RULE = ("sequences A1..Ak;B (k<=4) of documents assembled from a fragment library (classes article/book/report, "
         "registers, \\setlength, math in all forms, lists, tables, ifthen, index, bibliography, theorems, \\openout, "
         "catcodes, counters, packages; A_i may end with math/list/group left open); B alone in a fresh fork vs B "
@@ -471,6 +589,10 @@ RULE = ("sequences A1..Ak;B (k<=4) of documents assembled from a fragment librar
 STREAMS = [
     Stream("sequence", "given", lambda tier: sequence(), make_check(False),
            budget={"quick": 70, "thorough": 2500}, timeout=120.0, rule=RULE),
+    Stream("pairs", "enum", pairs, make_check(False), timeout=120.0,
+           rule=("complete enumeration of ordered fragment pairs: A = one document using fragment i, B = one document "
+                 "using fragment j (quick: state-touching i x state-observing j; thorough: all i x all j), same oracle. "
+                 "Non-trivial: i touches a holder j observes.")),
     Stream("rendered", "given", lambda tier: sequence(), make_check(True),
            budget={"quick": 12, "thorough": 300}, timeout=240.0,
            rule=RULE + " This stream also renders every document with HTML5 (split-level 1) and compares B's files."),
